@@ -9,6 +9,7 @@ import (
 	"os/exec"
 	"strings"
 	"sync"
+	"time"
 )
 
 // Driver is one running Lean driver process (line in, line out).
@@ -87,5 +88,12 @@ func (d *Driver) Ask1(req string) (string, error) {
 // Close ends the process.
 func (d *Driver) Close() {
 	d.in.Close()
-	_ = d.cmd.Wait()
+	done := make(chan struct{})
+	go func() { _ = d.cmd.Wait(); close(done) }()
+	select {
+	case <-done:
+	case <-time.After(2 * time.Second):
+		_ = d.cmd.Process.Kill()
+		<-done
+	}
 }
